@@ -56,6 +56,8 @@ pub proof fn lemma_w_rec(b: u8)
     assert(vi(v, 1, 0) == Some((1int, 2int)));
     assert(vi(v, 2, 0) == Some((29int, 3int)));
     assert(vi(v, 3, 0) == Some((1int, 4int)));
+    assert(29u64 & 24u64 > 0 && 29u64 & 8u64 > 0) by(bit_vector);
+    assert(has_file(29) && has_pos(29));
     assert(vi(v, 4, 0) == Some((0int, 5int)));
     assert(vi(v, 5, 0) == Some((8int, 6int)));
 }
